@@ -115,6 +115,32 @@ def run_case(ctx):
         o, cs = run_whip(ctx, path, var, dtype, limit, out, ps)
         ctx.stats["random_variants"] += 1
         check(o, out, f"random schedule seed={seed} {[(c['W'], c['order']) for c in cs]}")
+    if src.flag("read_fault", 6):
+        # fault-injecting configuration, run apart from the fault-free ones above: the first open of one binary
+        # file of a selected level fails once with EIO (a transient error).  whip may give up - or carry on,
+        # but then what it saves must still be the covering grid, cell for cell
+        lvf = src.draw("read_fault.lv", 0, L)
+        names = sorted({f for f, _ in m.layout[lvf]})
+        fname = names[src.draw("read_fault.file", 0, len(names) - 1)]
+        fpath = os.path.join(_abs, f"Level_{lvf}", fname)
+        out = os.path.join(ctx.scratch, "ugrid_f")
+        ctx.read_fault_paths = {fpath: "EIO-ONCE"}
+        nf0 = len(ctx.faults_fired)
+        try:
+            o, _ = run_whip(ctx, path, var, dtype, limit, out, Scripted({}))
+        finally:
+            ctx.read_fault_paths = {}
+        if len(ctx.faults_fired) > nf0:
+            ctx.probe("transient_read_fault_fired")
+            if o.ok or os.path.exists(out + ".npy"):
+                if not os.path.exists(out + ".npy"):
+                    raise Violation({**sig, "oracle": "fault-swallowed-no-output"},
+                                    f"whip returned normally after a transient EIO on {fname} of level {lvf} and saved nothing; {what}")
+                o_ok = o
+                o_ok.ok = True
+                check(o_ok, out, f"transient-EIO on the first open of Level_{lvf}/{fname}")
+            else:
+                ctx.probe("transient_read_fault_reported")
     if L >= 1 or any(len({f for f, _ in lay}) >= 2 for lay in m.layout[:L + 1]):
         ctx.nontrivial = True
     ctx.case_key = common.key_of([m.summary(), var, dtype, limit, sorted(map(str, ctx.sigs))])
